@@ -166,6 +166,21 @@ func c02Inputs(c *Ctx) (inputs [][]byte, tags []string) {
 			add(rewriteHeader([]byte{fb, 0x00, 0x01, 0x02}, 3, n), "huge-payload")
 		}
 	}
+	// wide runs of empty / shallow lists around branches at the depth limit (the limit is per path), plus the same
+	// with one more level on the deep branch (must be rejected) — after seeded changes C01c-2 / C02c-1
+	for _, it := range SiblingDepthCases() {
+		add(Build(it, 0).ToBytes(), "sibling-depth")
+	}
+	for _, k := range []int{0, 1, 5} {
+		it := &LItem{Kind: "L"}
+		for i := 0; i < k; i++ {
+			it.Kids = append(it.Kids, &LItem{Kind: "L"})
+		}
+		it.Kids = append(it.Kids, Nest(&LItem{Kind: "L"}, 63)) // the innermost EMPTY list is the 65th level
+		add(Build(it, 0).ToBytes(), "sibling-depth")
+		it2 := &LItem{Kind: "L", Kids: []*LItem{Nest(&LItem{Kind: "L", Kids: []*LItem{{Kind: "U", W: 1, Uints: []uint64{1}}, {Kind: "L"}}}, 63)}}
+		add(Build(it2, 0).ToBytes(), "sibling-depth") // 65th level reached by a later sibling that is an empty list
+	}
 	// nesting depth 63/64/65/66 of empty lists and of a leaf
 	for _, d := range []int{62, 63, 64, 65, 66, 70} {
 		var b []byte
